@@ -225,7 +225,29 @@ def pair_union(report, scen, rng, evs, f):
         report.count("pairs_union_" + w["backend"])
 
 
+def multiindex_store(rng):
+    """authors x kinds x several tag values, events carrying one or two of the requested values: the author/kind
+    index is walked first and the tag index second, where an event can come up once per matching value"""
+    authors = gen.AUTHORS[:4]
+    kinds = REGULAR_KINDS[:4]
+    vals = rng.sample(["x", "y", "z", "w"], rng.randint(2, 3))
+    evs = []
+    for i in range(rng.randint(3, 9)):
+        r = rng.random()
+        mine = rng.sample(vals, 2) if r < 0.45 else [rng.choice(vals)] if r < 0.85 else [rng.choice(["q", "xx"])]
+        evs.append({"id": gen.mkid(rng), "pubkey": rng.choice(authors[:3]), "created_at": gen.T0 + rng.choice([0, 1, 2, 50, 100, 255, 256]),
+                    "kind": rng.choice(kinds), "tags": [["t", v] for v in mine], "content": "", "sig": "00" * 64})
+    f = {"authors": authors[:rng.choice([3, 4])], "kinds": kinds, "#t": vals}
+    return evs, f
+
+
 def run_case(report, scen, rng):
+    for _ in range(2):
+        evs, f = multiindex_store(rng)
+        scen.load(evs)
+        pair_union(report, scen, rng, evs, f)
+        pair_monotone(report, scen, rng, evs, f)
+        pair_unrelated(report, scen, rng, evs, f)
     evs = regular_store(rng)
     for _ in range(5):
         f = gen.gen_filter(rng, evs, limit_pool=(None,))
